@@ -64,7 +64,8 @@ def check(ctx):
         for dnode in dels:
             loop = K.enclosing_for(graph, dnode)
             names = N.for_targets(loop) if loop is not None else set()
-            mine = set(f for f in facts[dnode] if f.mentions & names)
+            mine = set(f for f in N.raw_only(facts[dnode])
+                       if f.mentions & names)
             if func.name == 'reschedule':
                 want = {N.Atom(('truth', 'before', True)),
                         N.cmp_atom(ast.Name(id='before'), '!=',
@@ -138,7 +139,8 @@ def check(ctx):
                 ok = True
             if coeff < 0 and op == '<=' and const == 2:
                 ok = True
-        others = [f for f in facts[inner] if f not in lenatom and
+        others = [f for f in N.raw_only(facts[inner])
+                  if f not in lenatom and
                   f.mentions & set(entry_vars)]
         ctx.ob('C10.3', func, inner, ok and not others,
                'the repair applies exactly to entries with more than one '
